@@ -68,6 +68,9 @@ type Enc struct {
 	resultTerms   []Value
 	finalGuard    Term
 	inlineN       int
+	callOrd       map[string]int
+	callOrdSite   map[ssa.Instruction]map[string]int
+	callSites     map[string][]ssa.Instruction
 	globLen       map[string]int
 	cloCellMap    map[*Frame]map[*ssa.Alloc]Value
 	loopRTs       map[*Frame]map[int]*loopRT
